@@ -42,8 +42,44 @@ Definition lact_eqb (a b : lact) : bool :=
 Definition fact_eqb (a b : fact) : bool :=
   match a, b with FStrLit, FStrLit | FInfStr, FInfStr => true | _, _ => false end.
 
-Definition elements (v : pyval) : list pyval :=
-  match v with PList l | PTuple l => l | PRow fs => map snd fs | _ => [] end.
+(** list combinators with the mapped function as a parameter outside the [fix], so that they can be used under
+    a structural [Fixpoint] on the nested value types *)
+Definition map_snd {K A B} (f : A -> B) : list (K * A) -> list (K * B) :=
+  fix go l := match l with [] => [] | (k, x) :: r => (k, f x) :: go r end.
+Definition mapo {A B} (f : A -> option B) : list A -> option (list B) :=
+  fix go l := match l with
+              | [] => Some []
+              | x :: r => match f x, go r with Some y, Some ys => Some (y :: ys) | _, _ => None end
+              end.
+Definition mapo_snd {K A B} (f : A -> option B) : list (K * A) -> option (list (K * B)) :=
+  fix go l := match l with
+              | [] => Some []
+              | (k, x) :: r => match f x, go r with Some y, Some ys => Some ((k, y) :: ys) | _, _ => None end
+              end.
+
+Lemma map_ext_Forall {A B} (f g : A -> B) l : Forall (fun x => f x = g x) l -> map f l = map g l.
+Proof. induction 1 as [|x r Hx _ IH]; [reflexivity|]. cbn. rewrite Hx, IH. reflexivity. Qed.
+Lemma map_snd_ext_Forall {K A B} (f g : A -> B) (l : list (K * A)) :
+  Forall (fun kv => f (snd kv) = g (snd kv)) l -> map_snd f l = map_snd g l.
+Proof. induction 1 as [|[k x] r Hx _ IH]; [reflexivity|]. cbn in *. rewrite Hx, IH. reflexivity. Qed.
+Lemma mapo_map_Forall {A B C} (P : A -> bool) (f : B -> option C) (g : A -> B) (h : A -> C) l :
+  Forall (fun x => P x = true -> f (g x) = Some (h x)) l -> forallb P l = true ->
+  mapo f (map g l) = Some (map h l).
+Proof.
+  induction 1 as [|x r Hx _ IH]; intro H; [reflexivity|].
+  cbn [forallb] in H. apply andb_true_iff in H. destruct H as [H1 H2].
+  cbn [map mapo]. fold (mapo f). rewrite (Hx H1), (IH H2). reflexivity.
+Qed.
+Lemma mapo_snd_map_Forall {K A B C} (P : A -> bool) (f : B -> option C) (g : A -> B) (h : A -> C) (l : list (K * A)) :
+  Forall (fun kv => P (snd kv) = true -> f (g (snd kv)) = Some (h (snd kv))) l ->
+  forallb (fun kv => P (snd kv)) l = true ->
+  mapo_snd f (map_snd g l) = Some (map_snd h l).
+Proof.
+  induction 1 as [|[k x] r Hx _ IH]; intro H; [reflexivity|].
+  cbn [forallb snd] in H. apply andb_true_iff in H. destruct H as [H1 H2]. cbn [snd] in Hx.
+  cbn [map_snd mapo_snd]. fold (@mapo_snd K _ _ f). fold (@map_snd K _ _ g). fold (@map_snd K _ _ h).
+  rewrite (Hx H1), (IH H2). reflexivity.
+Qed.
 
 (** sqlglot's exp.convert on non-container values (environment; my definition, order as in sqlglot 26.14:
     str, bool, None/NaN, Number, bytes, datetime, date) *)
@@ -72,42 +108,29 @@ Section Lit.
   (** Column._lit (recursive calls are cls._lit, not lit) *)
   Fixpoint lit_nested (v : pyval) : lit :=
     match lact_of v with
-    | Some AStruct =>
-        match v with
-        | PRow fs => LStruct ((fix go (fs : list (ustr * pyval)) : list (ustr * lit) :=
-                                 match fs with [] => [] | (k, x) :: r => (k, lit_nested x) :: go r end) fs)
-        | _ => LErr
-        end
+    | Some AStruct => match v with PRow fs => LStruct (map_snd lit_nested fs) | _ => LErr end
     | Some AArray =>
         match v with
-        | PList l | PTuple l => LArr ((fix go (l : list pyval) : list lit :=
-                                         match l with [] => [] | x :: r => lit_nested x :: go r end) l)
-        | PRow fs => LArr ((fix go (fs : list (ustr * pyval)) : list lit :=
-                              match fs with [] => [] | (_, x) :: r => lit_nested x :: go r end) fs)
+        | PList l | PTuple l => LArr (map lit_nested l)
+        | PRow fs => LArr (map (fun kv => lit_nested (snd kv)) fs)
         | _ => LErr
         end
     | Some ATuple =>
         match v with
-        | PList l | PTuple l => LTuple ((fix go (l : list pyval) : list lit :=
-                                           match l with [] => [] | x :: r => lit_nested x :: go r end) l)
-        | PRow fs => LTuple ((fix go (fs : list (ustr * pyval)) : list lit :=
-                                match fs with [] => [] | (_, x) :: r => lit_nested x :: go r end) fs)
+        | PList l | PTuple l => LTuple (map lit_nested l)
+        | PRow fs => LTuple (map (fun kv => lit_nested (snd kv)) fs)
         | _ => LErr
         end
     | Some AMap =>
         match v with
-        | PDict kv => LMap ((fix go (kv : list (pyval * pyval)) : list lit :=
-                               match kv with [] => [] | (k, _) :: r => lit_nested k :: go r end) kv)
-                           ((fix go (kv : list (pyval * pyval)) : list lit :=
-                               match kv with [] => [] | (_, x) :: r => lit_nested x :: go r end) kv)
+        | PDict kv => LMap (map (fun p => lit_nested (fst p)) kv) (map (fun p => lit_nested (snd p)) kv)
         | _ => LErr
         end
     | Some ANanCast => LCastStr s_NaN TFloat
     | Some ATsCast => match v with PTs us None => LTs us | PTs us (Some _) => LTsTz us | _ => LErr end
     | None =>
         match v with
-        | PList l | PTuple l => LErr   (* exp.convert would recurse with convert, not _lit: not reachable when the chain is right *)
-        | PRow _ | PDict _ => LErr
+        | PList _ | PTuple _ | PRow _ | PDict _ => LErr   (* exp.convert would recurse with convert, not _lit; unreachable when the chain is right *)
         | _ => convert_leaf v
         end
     end.
@@ -124,16 +147,10 @@ End Lit.
 (** the pattern-matching definitions the property needs *)
 Fixpoint std_lit_nested (v : pyval) : lit :=
   match v with
-  | PRow fs => LStruct ((fix go (fs : list (ustr * pyval)) : list (ustr * lit) :=
-                           match fs with [] => [] | (k, x) :: r => (k, std_lit_nested x) :: go r end) fs)
-  | PList l => LArr ((fix go (l : list pyval) : list lit :=
-                        match l with [] => [] | x :: r => std_lit_nested x :: go r end) l)
-  | PTuple l => LTuple ((fix go (l : list pyval) : list lit :=
-                           match l with [] => [] | x :: r => std_lit_nested x :: go r end) l)
-  | PDict kv => LMap ((fix go (kv : list (pyval * pyval)) : list lit :=
-                         match kv with [] => [] | (k, _) :: r => std_lit_nested k :: go r end) kv)
-                     ((fix go (kv : list (pyval * pyval)) : list lit :=
-                         match kv with [] => [] | (_, x) :: r => std_lit_nested x :: go r end) kv)
+  | PRow fs => LStruct (map_snd std_lit_nested fs)
+  | PList l => LArr (map std_lit_nested l)
+  | PTuple l => LTuple (map std_lit_nested l)
+  | PDict kv => LMap (map (fun p => std_lit_nested (fst p)) kv) (map (fun p => std_lit_nested (snd p)) kv)
   | PFloat FNaN => LCastStr s_NaN TFloat
   | _ => convert_leaf v
   end.
@@ -199,14 +216,14 @@ Proof.
   - intro d; cbn [lit_nested]; rewrite K; reflexivity.
   - intros us tz; cbn [lit_nested]; rewrite K; destruct tz; reflexivity.
   - intros l H. cbn [lit_nested]. rewrite K. cbn [cls_of flav_of std_lact std_lit_nested]. f_equal.
-    induction H as [|x r Hx Hr IH]; [reflexivity|]. rewrite Hx, IH. reflexivity.
+    apply map_ext_Forall; exact H.
   - intros l H. cbn [lit_nested]. rewrite K. cbn [cls_of flav_of std_lact std_lit_nested]. f_equal.
-    induction H as [|x r Hx Hr IH]; [reflexivity|]. rewrite Hx, IH. reflexivity.
+    apply map_ext_Forall; exact H.
   - intros fs H. cbn [lit_nested]. rewrite K. cbn [cls_of flav_of std_lact std_lit_nested]. f_equal.
-    induction H as [|[k x] r Hx Hr IH]; [reflexivity|]. cbn [snd] in Hx. rewrite Hx, IH. reflexivity.
+    apply map_snd_ext_Forall; exact H.
   - intros kv H. cbn [lit_nested]. rewrite K. cbn [cls_of flav_of std_lact std_lit_nested]. f_equal.
-    + induction H as [|[k x] r Hx Hr IH]; [reflexivity|]. cbn [fst snd] in Hx. destruct Hx as [Hk _]. rewrite Hk, IH. reflexivity.
-    + induction H as [|[k x] r Hx Hr IH]; [reflexivity|]. cbn [fst snd] in Hx. destruct Hx as [_ Hx]. rewrite Hx, IH. reflexivity.
+    + apply map_ext_Forall. eapply Forall_impl; [|exact H]. cbn. tauto.
+    + apply map_ext_Forall. eapply Forall_impl; [|exact H]. cbn. tauto.
 Qed.
 
 Lemma lit_top_is_std lch fch : lit_chain_ok lch = true -> litfn_chain_ok fch = true ->
@@ -242,24 +259,12 @@ Section Engine.
   Variable cleaf : sty -> dbval -> option dbval.
   Variable pleaf : dbval -> pyval.
 
-  (** list and struct constructors evaluate their members (my definition of DuckDB's behaviour) *)
+  (** list and struct constructors evaluate their members (my definition of DuckDB's behaviour); the empty
+      struct literal is an error *)
   Fixpoint eval (l : lit) : option dbval :=
     match l with
-    | LArr xs =>
-        option_map DList ((fix go (xs : list lit) : option (list dbval) :=
-           match xs with
-           | [] => Some []
-           | x :: r => match eval x, go r with Some d, Some ds => Some (d :: ds) | _, _ => None end
-           end) xs)
-    | LStruct fs =>
-        match fs with
-        | [] => None
-        | _ => option_map DStruct ((fix go (fs : list (ustr * lit)) : option (list (ustr * dbval)) :=
-           match fs with
-           | [] => Some []
-           | (k, x) :: r => match eval x, go r with Some d, Some ds => Some ((k, d) :: ds) | _, _ => None end
-           end) fs)
-        end
+    | LArr xs => option_map DList (mapo eval xs)
+    | LStruct fs => match fs with [] => None | _ => option_map DStruct (mapo_snd eval fs) end
     | LTuple _ | LMap _ _ | LErr => None          (* outside the modelled fragment *)
     | _ => eleaf l
     end.
@@ -271,16 +276,7 @@ Section Engine.
     | DNull => Some DNull
     | _ =>
       match t with
-      | TArray t' =>
-          match d with
-          | DList xs =>
-              option_map DList ((fix go (xs : list dbval) : option (list dbval) :=
-                 match xs with
-                 | [] => Some []
-                 | x :: r => match cast t' x, go r with Some y, Some ys => Some (y :: ys) | _, _ => None end
-                 end) xs)
-          | _ => None
-          end
+      | TArray t' => match d with DList xs => option_map DList (mapo (cast t') xs) | _ => None end
       | TStruct ts =>
           match d with
           | DStruct fs =>
@@ -303,10 +299,8 @@ Section Engine.
   (** the DuckDB Python client: LIST -> list, STRUCT -> dict keyed by field name *)
   Fixpoint client (d : dbval) : pyval :=
     match d with
-    | DList xs => PList ((fix go (xs : list dbval) : list pyval :=
-                            match xs with [] => [] | x :: r => client x :: go r end) xs)
-    | DStruct fs => PDict ((fix go (fs : list (ustr * dbval)) : list (pyval * pyval) :=
-                              match fs with [] => [] | (k, x) :: r => (PStr k, client x) :: go r end) fs)
+    | DList xs => PList (map client xs)
+    | DStruct fs => PDict (map (fun kv => (PStr (fst kv), client (snd kv))) fs)
     | _ => pleaf d
     end.
 
@@ -380,6 +374,11 @@ Definition maplike_of (v : pyval) : bool :=
   | _ => false
   end.
 
+Definition key_name (k : pyval) : ustr := match k with PStr s => s | _ => [] end.
+
+(** _create_row: a Decimal that is a direct member of a row (top-level row or nested struct) becomes a float *)
+Definition fix_dec (v : pyval) : pyval := match v with PDec f => PFloat f | _ => v end.
+
 Section ToValue.
   Variable vch : chain vact.   (* _to_value, regenerated *)
 
@@ -387,51 +386,22 @@ Section ToValue.
 
   Fixpoint to_value (v : pyval) : pyval :=
     match vact_of v with
-    | Some VMap =>
-        match v with
-        | PDict kv => PDict ((fix go (kv : list (pyval * pyval)) : list (pyval * pyval) :=
-                                match kv with [] => [] | (k, x) :: r => (k, to_value x) :: go r end) kv)
-        | _ => v
-        end
-    | Some VRow =>
-        match v with
-        | PDict kv => PRow ((fix go (kv : list (pyval * pyval)) : list (ustr * pyval) :=
-                               match kv with
-                               | [] => []
-                               | (k, x) :: r => (match k with PStr s => s | _ => [] end, to_value x) :: go r
-                               end) kv)
-        | _ => v
-        end
-    | Some VList =>
-        match v with
-        | PList l | PTuple l => PList ((fix go (l : list pyval) : list pyval :=
-                                          match l with [] => [] | x :: r => to_value x :: go r end) l)
-        | _ => v
-        end
+    | Some VMap => match v with PDict kv => PDict (map (fun p => (fst p, to_value (snd p))) kv) | _ => v end
+    | Some VRow => match v with PDict kv => PRow (map (fun p => (key_name (fst p), fix_dec (to_value (snd p)))) kv) | _ => v end
+    | Some VList => match v with PList l | PTuple l => PList (map to_value l) | _ => v end
     | Some VStripTz => match v with PTs us _ => PTs us None | _ => v end
     | None => v
     end.
 End ToValue.
 
-(** _create_row: a Decimal at the top level of a row becomes a float *)
-Definition fix_dec (v : pyval) : pyval := match v with PDec f => PFloat f | _ => v end.
 
 Fixpoint std_to_value (v : pyval) : pyval :=
   match v with
   | PDict kv =>
-      if maplike_of v then
-        PDict ((fix go (kv : list (pyval * pyval)) : list (pyval * pyval) :=
-                  match kv with [] => [] | (k, x) :: r => (k, std_to_value x) :: go r end) kv)
-      else
-        PRow ((fix go (kv : list (pyval * pyval)) : list (ustr * pyval) :=
-                 match kv with
-                 | [] => []
-                 | (k, x) :: r => (match k with PStr s => s | _ => [] end, std_to_value x) :: go r
-                 end) kv)
-  | PList (x :: r) => PList ((fix go (l : list pyval) : list pyval :=
-                                match l with [] => [] | x :: r => std_to_value x :: go r end) (x :: r))
-  | PTuple (x :: r) => PList ((fix go (l : list pyval) : list pyval :=
-                                 match l with [] => [] | x :: r => std_to_value x :: go r end) (x :: r))
+      if maplike_of v then PDict (map (fun p => (fst p, std_to_value (snd p))) kv)
+      else PRow (map (fun p => (key_name (fst p), fix_dec (std_to_value (snd p)))) kv)
+  | PList l => match l with [] => v | _ => PList (map std_to_value l) end
+  | PTuple l => match l with [] => v | _ => PList (map std_to_value l) end
   | PTs us _ => PTs us None
   | _ => v
   end.
@@ -477,16 +447,14 @@ Proof.
   - intro d; cbn [to_value]; rewrite K; reflexivity.
   - intros us tz; cbn [to_value]; rewrite K; reflexivity.
   - intros l H. cbn [to_value]. rewrite K. destruct l as [|x r]; [reflexivity|].
-    cbn [cls_of truthy_of std_vact std_to_value]. f_equal.
-    induction H as [|y r' Hy Hr IH]; [reflexivity|]. rewrite Hy, IH. reflexivity.
+    cbn [cls_of truthy_of std_vact std_to_value]. f_equal. apply map_ext_Forall; exact H.
   - intros l H. cbn [to_value]. rewrite K. destruct l as [|x r]; [reflexivity|].
-    cbn [cls_of truthy_of std_vact std_to_value]. f_equal.
-    induction H as [|y r' Hy Hr IH]; [reflexivity|]. rewrite Hy, IH. reflexivity.
+    cbn [cls_of truthy_of std_vact std_to_value]. f_equal. apply map_ext_Forall; exact H.
   - intros fs H. cbn [to_value]. rewrite K. destruct fs; reflexivity.
   - intros kv H. cbn [to_value]. rewrite K. cbn [cls_of std_vact std_to_value].
     destruct (maplike_of (PDict kv)); f_equal.
-    + induction H as [|[k x] r Hx Hr IH]; [reflexivity|]. cbn [fst snd] in Hx. destruct Hx as [_ Hx]. rewrite Hx, IH. reflexivity.
-    + induction H as [|[k x] r Hx Hr IH]; [reflexivity|]. cbn [fst snd] in Hx. destruct Hx as [_ Hx]. rewrite Hx, IH. reflexivity.
+    + apply map_ext_Forall. eapply Forall_impl; [|exact H]. cbn. intros a [_ Ha]. rewrite Ha. reflexivity.
+    + apply map_ext_Forall. eapply Forall_impl; [|exact H]. cbn. intros a [_ Ha]. rewrite Ha. reflexivity.
 Qed.
 
 (* ------------------------------------------------------------------------------------------------ *)
@@ -519,9 +487,8 @@ End Pipeline.
 Fixpoint expected (v : pyval) : pyval :=
   match v with
   | PTs us (Some _) => PTs us None
-  | PList l => PList ((fix go (l : list pyval) : list pyval := match l with [] => [] | x :: r => expected x :: go r end) l)
-  | PRow fs => PRow ((fix go (fs : list (ustr * pyval)) : list (ustr * pyval) :=
-                        match fs with [] => [] | (k, x) :: r => (k, expected x) :: go r end) fs)
+  | PList l => PList (map expected l)
+  | PRow fs => PRow (map_snd expected fs)
   | _ => v
   end.
 
@@ -530,6 +497,8 @@ Fixpoint nodup_keys {A} (fs : list (ustr * A)) : bool :=
   | [] => true
   | (k, _) :: r => negb (existsb (fun p => ueqb k (fst p)) r) && nodup_keys r
   end.
+
+Definition has_field {A} (k : ustr) (fs : list (ustr * A)) : bool := existsb (fun p => ueqb (fst p) k) fs.
 
 (** values the theorem speaks about, as nested members: NUL-free strings, 64-bit ints, no infinity (inside a
     container the literal is the bare word inf), non-empty structs with distinct field names that are not the
@@ -541,7 +510,7 @@ Fixpoint supp (v : pyval) : bool :=
   | PStr s => nul_free s
   | PList l => forallb supp l
   | PRow fs => negb (match fs with [] => true | _ => false end) && nodup_keys fs
-               && negb (existsb (fun p => ueqb (fst p) s_key) fs && existsb (fun p => ueqb (fst p) s_value) fs)
+               && negb (has_field s_key fs && has_field s_value fs)
                && forallb (fun kv => supp (snd kv)) fs
   | PTuple _ | PDict _ | PDec _ => false
   | _ => true
@@ -550,7 +519,7 @@ Fixpoint supp (v : pyval) : bool :=
 Definition supported (v : pyval) : bool :=
   match v with PFloat _ => true | _ => supp v end.
 
-(** the engine value a supported value's literal denotes, and what CAST to its type makes of it *)
+(** the engine value a supported value's literal denotes ... *)
 Fixpoint D0 (v : pyval) : dbval :=
   match v with
   | PNone => DNull | PBool b => DBool b | PInt z => DInt z
@@ -560,12 +529,12 @@ Fixpoint D0 (v : pyval) : dbval :=
   | PDec f => DDec f
   | PStr s => DStr s | PBytes b => DBlob b | PDate d => DDate d
   | PTs us None => DTs us | PTs us (Some _) => DTsTz us
-  | PList l => DList ((fix go (l : list pyval) : list dbval := match l with [] => [] | x :: r => D0 x :: go r end) l)
-  | PRow fs => DStruct ((fix go (fs : list (ustr * pyval)) : list (ustr * dbval) :=
-                           match fs with [] => [] | (k, x) :: r => (k, D0 x) :: go r end) fs)
+  | PList l => DList (map D0 l)
+  | PRow fs => DStruct (map_snd D0 fs)
   | PTuple _ | PDict _ => DNull
   end.
 
+(** ... and what CAST to its type makes of it *)
 Fixpoint D1 (v : pyval) : dbval :=
   match v with
   | PNone => DNull | PBool b => DBool b | PInt z => DInt z
@@ -573,11 +542,28 @@ Fixpoint D1 (v : pyval) : dbval :=
   | PDec f => DDec f
   | PStr s => DStr s | PBytes b => DBlob b | PDate d => DDate d
   | PTs us _ => DTsTz us
-  | PList l => DList ((fix go (l : list pyval) : list dbval := match l with [] => [] | x :: r => D1 x :: go r end) l)
-  | PRow fs => DStruct ((fix go (fs : list (ustr * pyval)) : list (ustr * dbval) :=
-                           match fs with [] => [] | (k, x) :: r => (k, D1 x) :: go r end) fs)
+  | PList l => DList (map D1 l)
+  | PRow fs => DStruct (map_snd D1 fs)
   | PTuple _ | PDict _ => DNull
   end.
+
+Lemma lookup_map_snd {A B} (f : A -> B) k (fs : list (ustr * A)) :
+  lookup k (map_snd f fs) = option_map f (lookup k fs).
+Proof.
+  induction fs as [|[k' x] r IH]; [reflexivity|]. cbn [map_snd lookup]. fold (@map_snd ustr _ _ f).
+  destruct (ueqb k k'); [reflexivity|exact IH].
+Qed.
+
+Lemma existsb_ueqb_false k (r : list (ustr * pyval)) k' x :
+  existsb (fun p => ueqb k (fst p)) r = false -> In (k', x) r -> ueqb k' k = false.
+Proof.
+  intros H Hin. destruct (ueqb k' k) eqn:E; [|reflexivity]. apply ueqb_eq in E; subst k'.
+  assert (existsb (fun p => ueqb k (fst p)) r = true); [|congruence].
+  apply existsb_exists. exists (k, x). split; [assumption|apply ueqb_refl].
+Qed.
+
+Lemma expected_not_dec v : supp v = true -> fix_dec (expected v) = expected v.
+Proof. destruct v; try reflexivity; try discriminate. destruct tz; reflexivity. Qed.
 
 Section Roundtrip.
   Variable eleaf : lit -> option dbval.
@@ -598,32 +584,807 @@ Section Roundtrip.
     - intros d _. apply (e_date _ _ _ ENV).
     - intros us tz _. destruct tz; [apply (e_tstz _ _ _ ENV)|apply (e_ts _ _ _ ENV)].
     - intros l IH H. cbn [supp] in H. cbn [std_lit_nested eval D0].
-      match goal with |- option_map DList ?a = Some (DList ?b) => assert (E : a = Some b); [|rewrite E; reflexivity] end.
-      induction IH as [|x r Hx Hr IHr]; [reflexivity|].
-      cbn [forallb] in H. apply andb_true_iff in H. destruct H as [H1 H2].
-      rewrite (Hx H1), (IHr H2). reflexivity.
+      rewrite (mapo_map_Forall supp (eval eleaf) std_lit_nested D0 l IH H). reflexivity.
     - intros l _ H. discriminate.
     - intros fs IH H. cbn [supp] in H.
       apply andb_true_iff in H. destruct H as [H Hall]. apply andb_true_iff in H. destruct H as [H _].
       apply andb_true_iff in H. destruct H as [Hne _].
-      destruct fs as [|[k0 x0] r0]; [discriminate|]. clear Hne.
       cbn [std_lit_nested eval D0].
+      rewrite (mapo_snd_map_Forall supp (eval eleaf) std_lit_nested D0 fs IH Hall).
+      destruct fs as [|[k0 x0] r0]; [discriminate|]. reflexivity.
+    - intros kv _ H. discriminate.
+  Qed.
+
+  (** CAST of a value that fits the column type *)
+  Lemma cast_nested : forall v t, supp v = true -> fits v t = true -> cast cleaf t (D0 v) = Some (D1 v).
+  Proof.
+    apply (pyval_rect' (fun v => forall t, supp v = true -> fits v t = true -> cast cleaf t (D0 v) = Some (D1 v))).
+    - intros t _ _. destruct t; reflexivity.
+    - intros b t _ H. destruct t; try discriminate. apply (c_bool _ _ _ ENV).
+    - intros z t _ H. destruct t; try discriminate. apply (c_int _ _ _ ENV). exact H.
+    - intros f t Hs H. destruct t; try discriminate. destruct f as [|n|b e].
+      + apply (c_flt_nan _ _ _ ENV).
+      + discriminate.
+      + cbn [D0 D1]. destruct e; cbn [cast]; [apply (c_dbl _ _ _ ENV)|apply (c_dec _ _ _ ENV)].
+    - intros f t Hs _. discriminate.
+    - intros s t _ H. destruct t; try discriminate. apply (c_str _ _ _ ENV).
+    - intros b t _ H. destruct t; try discriminate. apply (c_blob _ _ _ ENV).
+    - intros d t _ H. destruct t; try discriminate. apply (c_date _ _ _ ENV).
+    - intros us tz t _ H. destruct tz; destruct t; try discriminate; [apply (c_tstz _ _ _ ENV)|apply (c_ts _ _ _ ENV)].
+    - intros l IH t Hs H. destruct t; try discriminate. cbn [fits] in H. cbn [supp] in Hs. cbn [D0 D1 cast].
+      assert (E : mapo (cast cleaf t) (map D0 l) = Some (map D1 l)).
+      { rewrite Forall_forall in IH. rewrite forallb_forall in H, Hs.
+        assert (F : Forall (fun x => true = true -> cast cleaf t (D0 x) = Some (D1 x)) l).
+        { apply Forall_forall. intros x Hx _. apply IH; [exact Hx|apply Hs; exact Hx|apply H; exact Hx]. }
+        apply (mapo_map_Forall (fun _ => true) (cast cleaf t) D0 D1 l F).
+        apply forallb_forall. reflexivity. }
+      rewrite E. reflexivity.
+    - intros l _ t Hs _. discriminate.
+    - intros fs IH t Hs H. destruct t as [| | | | | | | | | | | | |ts|]; try discriminate.
+      cbn [supp] in Hs.
+      apply andb_true_iff in Hs. destruct Hs as [Hs Hall]. apply andb_true_iff in Hs. destruct Hs as [Hs _].
+      apply andb_true_iff in Hs. destruct Hs as [Hne Hnd].
+      cbn [D0 D1].
+      assert (Hc : cast cleaf (TStruct ts) (DStruct (map_snd D0 fs)) =
+              option_map DStruct ((fix go (ts : list (ustr * sty)) : option (list (ustr * dbval)) :=
+                 match ts with
+                 | [] => Some []
+                 | (k, t') :: r =>
+                     match lookup k (map_snd D0 fs) with
+                     | Some x => match cast cleaf t' x, go r with Some y, Some ys => Some ((k, y) :: ys) | _, _ => None end
+                     | None => None
+                     end
+                 end) ts)) by reflexivity.
+      rewrite Hc. clear Hc.
       match goal with |- option_map DStruct ?a = Some (DStruct ?b) => assert (E : a = Some b); [|rewrite E; reflexivity] end.
-      revert Hall. generalize ((k0, x0) :: r0) as fs. intros fs Hall. clear -IH Hall ENV.
-      assert (G : forall fs, Forall (fun kv => supp (snd kv) = true -> eval eleaf (std_lit_nested (snd kv)) = Some (D0 (snd kv))) fs ->
-                  forallb (fun kv => supp (snd kv)) fs = true ->
-                  (fix go (fs0 : list (ustr * lit)) : option (list (ustr * dbval)) :=
-                     match fs0 with
-                     | [] => Some []
-                     | (k, x) :: r => match eval eleaf x, go r with Some d, Some ds => Some ((k, d) :: ds) | _, _ => None end
-                     end)
-                    ((fix go (fs0 : list (ustr * pyval)) : list (ustr * lit) :=
-                        match fs0 with [] => [] | (k, x) :: r => (k, std_lit_nested x) :: go r end) fs)
-                  = Some ((fix go (fs0 : list (ustr * pyval)) : list (ustr * dbval) :=
-                             match fs0 with [] => [] | (k, x) :: r => (k, D0 x) :: go r end) fs)).
-      { clear. intros fs F. induction F as [|[k x] r Hx Hr IHr]; intro H; [reflexivity|].
-        cbn [forallb snd] in H. apply andb_true_iff in H. destruct H as [H1 H2]. cbn [snd] in Hx.
-        rewrite (Hx H1), (IHr H2). reflexivity. }
-      admit.
-  Abort.
+      (* generalise: iterate over a suffix [gs] of the fields whose entries are all found in the full list *)
+      cbn [fits] in H.
+      assert (G : forall (gs : list (ustr * pyval)) (ts : list (ustr * sty)),
+                 (forall k x, In (k, x) gs -> lookup k fs = Some x /\ supp x = true /\
+                                            (forall t, supp x = true -> fits x t = true -> cast cleaf t (D0 x) = Some (D1 x))) ->
+                 (fix go (fs0 : list (ustr * pyval)) (ts0 : list (ustr * sty)) : bool :=
+                    match fs0, ts0 with
+                    | [], [] => true
+                    | (k, x) :: fr, (k', t') :: tr => ueqb k k' && fits x t' && go fr tr
+                    | _, _ => false
+                    end) gs ts = true ->
+                 (fix go (ts0 : list (ustr * sty)) : option (list (ustr * dbval)) :=
+                    match ts0 with
+                    | [] => Some []
+                    | (k, t') :: r =>
+                        match lookup k (map_snd D0 fs) with
+                        | Some x => match cast cleaf t' x, go r with Some y, Some ys => Some ((k, y) :: ys) | _, _ => None end
+                        | None => None
+                        end
+                    end) ts = Some (map_snd D1 gs)).
+      { induction gs as [|[k x] gr IHg]; intros ts0 Hin Hf.
+        - destruct ts0; [reflexivity|discriminate].
+        - destruct ts0 as [|[k' t'] tr]; [discriminate|].
+          apply andb_true_iff in Hf. destruct Hf as [Hf Hrest]. apply andb_true_iff in Hf. destruct Hf as [Hk Hfx].
+          apply ueqb_eq in Hk. subst k'.
+          destruct (Hin k x (or_introl eq_refl)) as [Hl [Hsx Hcx]].
+          rewrite lookup_map_snd, Hl. cbn [option_map]. rewrite (Hcx t' Hsx Hfx).
+          rewrite (IHg tr); [reflexivity| |exact Hrest].
+          intros k2 x2 H2. apply Hin. right. exact H2. }
+      apply G; [|exact H].
+      intros k x Hin. rewrite Forall_forall in IH. rewrite forallb_forall in Hall.
+      split; [|split].
+      + clear -Hnd Hin. induction fs as [|[k1 x1] r IHr]; [destruct Hin|].
+        cbn [nodup_keys] in Hnd. apply andb_true_iff in Hnd. destruct Hnd as [Hn1 Hn2]. apply negb_true_iff in Hn1.
+        destruct Hin as [Hin|Hin].
+        * inversion Hin; subst. cbn [lookup]. rewrite ueqb_refl. reflexivity.
+        * cbn [lookup]. rewrite (existsb_ueqb_false _ _ _ _ Hn1 Hin). apply IHr; assumption.
+      + apply (Hall (k, x) Hin).
+      + apply (IH (k, x) Hin).
+    - intros kv _ t Hs _. discriminate.
+  Qed.
+
+  Lemma maplike_struct_false (fs : list (ustr * dbval)) (f : dbval -> pyval) :
+    (has_field s_key fs && has_field s_value fs) = false ->
+    maplike_of (PDict (map (fun kv => (PStr (fst kv), f (snd kv))) fs)) = false.
+  Proof.
+    intro H. unfold maplike_of.
+    assert (A : forall k, has_key k (map (fun kv => (PStr (fst kv), f (snd kv))) fs) = has_field k fs).
+    { clear H. intro k. unfold has_key, has_field. induction fs as [|[k1 x1] r IH]; [reflexivity|].
+      cbn [map existsb fst]. rewrite IH. reflexivity. }
+    rewrite !A. rewrite H. cbn [orb].
+    assert (B : existsb (fun p => negb (is_pstr (fst p))) (map (fun kv => (PStr (fst kv), f (snd kv))) fs) = false).
+    { clear A. induction fs as [|[k1 x1] r IH]; [reflexivity|]. cbn [map existsb fst is_pstr negb orb]. apply IH.
+      destruct (has_field s_key r && has_field s_value r) eqn:E; [|reflexivity].
+      exfalso. apply andb_true_iff in E. destruct E as [E1 E2].
+      unfold has_field in H. cbn [existsb] in H. unfold has_field in E1, E2. rewrite E1, E2 in H.
+      rewrite !orb_true_r in H. discriminate. }
+    rewrite B. apply andb_false_r.
+  Qed.
+
+  Lemma has_field_map_snd {A B} (f : A -> B) k (fs : list (ustr * A)) : has_field k (map_snd f fs) = has_field k fs.
+  Proof.
+    unfold has_field. induction fs as [|[k1 x1] r IH]; [reflexivity|]. cbn [map_snd existsb fst].
+    fold (@map_snd ustr _ _ f). rewrite IH. reflexivity.
+  Qed.
+
+  (** fetch + _to_value after the cast *)
+  Lemma client_nested : forall v, supp v = true -> std_to_value (client pleaf (D1 v)) = expected v.
+  Proof.
+    apply (pyval_rect' (fun v => supp v = true -> std_to_value (client pleaf (D1 v)) = expected v)).
+    - intros _. cbn. rewrite (p_null _ _ _ ENV). reflexivity.
+    - intros b _. cbn. rewrite (p_bool _ _ _ ENV). reflexivity.
+    - intros z _. cbn. rewrite (p_int _ _ _ ENV). reflexivity.
+    - intros f _. cbn. rewrite (p_dbl _ _ _ ENV). reflexivity.
+    - intros f H. discriminate.
+    - intros s _. cbn. rewrite (p_str _ _ _ ENV). reflexivity.
+    - intros b _. cbn. rewrite (p_blob _ _ _ ENV). reflexivity.
+    - intros d _. cbn. rewrite (p_date _ _ _ ENV). reflexivity.
+    - intros us tz _. cbn [D1 client]. rewrite (p_tstz _ _ _ ENV). destruct tz; reflexivity.
+    - intros l IH H. cbn [supp] in H. cbn [D1 client expected]. rewrite map_map.
+      destruct l as [|x r]; [reflexivity|].
+      cbn [map std_to_value]. f_equal.
+      rewrite Forall_forall in IH. rewrite forallb_forall in H.
+      change (std_to_value (client pleaf (D1 x)) :: map std_to_value (map (fun x0 => client pleaf (D1 x0)) r))
+        with (map std_to_value (map (fun x0 => client pleaf (D1 x0)) (x :: r))).
+      rewrite map_map. change (expected x :: map expected r) with (map expected (x :: r)).
+      apply map_ext_in. intros a Ha. apply IH; [exact Ha|apply H; exact Ha].
+    - intros l _ H. discriminate.
+    - intros fs IH H. cbn [supp] in H.
+      apply andb_true_iff in H. destruct H as [H Hall]. apply andb_true_iff in H. destruct H as [_ Hkv].
+      apply negb_true_iff in Hkv.
+      cbn [D1 client expected]. cbn [std_to_value].
+      rewrite maplike_struct_false by (rewrite !has_field_map_snd; exact Hkv).
+      f_equal. rewrite Forall_forall in IH. rewrite forallb_forall in Hall.
+      clear Hkv. induction fs as [|[k x] r IHr]; [reflexivity|].
+      cbn [map_snd map fst snd key_name]. fold (@map_snd ustr _ _ D1). fold (@map_snd ustr _ _ expected).
+      pose proof (IH (k, x) (or_introl eq_refl) (Hall (k, x) (or_introl eq_refl))) as Hx. cbn [snd] in Hx.
+      rewrite Hx. rewrite (expected_not_dec x (Hall (k, x) (or_introl eq_refl))).
+      f_equal. apply IHr; intros.
+      + apply IH; [right; assumption|assumption].
+      + apply Hall; right; assumption.
+    - intros kv _ H. discriminate.
+  Qed.
+
+
+  Variable lch : chain lact.
+  Variable fch : chain fact.
+  Variable vch : chain vact.
+  Hypothesis LOK : lit_chain_ok lch = true.
+  Hypothesis FOK : litfn_chain_ok fch = true.
+  Hypothesis VOK : tovalue_chain_ok vch = true.
+
+  (** value_roundtrip: a supported value in a column whose type it fits comes back as the promised value *)
+  Theorem value_roundtrip : forall v t,
+    supported v = true -> fits v t = true ->
+    pipeline eleaf cleaf pleaf lch fch vch (Some t) v = Some (expected v).
+  Proof.
+    intros v t Hs Hf. unfold pipeline, run.
+    rewrite (lit_top_is_std lch fch LOK FOK).
+    destruct v; try (
+      cbn [supported] in Hs; unfold std_lit_top;
+      rewrite (eval_nested _ Hs), (cast_nested _ _ Hs Hf), (to_value_is_std vch VOK), (client_nested _ Hs),
+              (expected_not_dec _ Hs); reflexivity).
+    (* floats at the top level *)
+    destruct t; try discriminate. destruct f as [|n|b e].
+    - cbn [std_lit_top std_lit_nested eval]. rewrite (e_nan _ _ _ ENV). cbn [cast]. rewrite (c_flt_nan _ _ _ ENV).
+      rewrite (to_value_is_std vch VOK). cbn [client]. rewrite (p_dbl _ _ _ ENV). reflexivity.
+    - cbn [std_lit_top eval]. rewrite (e_str _ _ _ ENV) by (destruct n; reflexivity). cbn [cast].
+      rewrite (c_inf _ _ _ ENV). rewrite (to_value_is_std vch VOK). cbn [client]. rewrite (p_dbl _ _ _ ENV). reflexivity.
+    - cbn [std_lit_top std_lit_nested convert_leaf eval]. rewrite (e_num _ _ _ ENV).
+      destruct e; cbn [cast]; [rewrite (c_dbl _ _ _ ENV)|rewrite (c_dec _ _ _ ENV)];
+        rewrite (to_value_is_std vch VOK); cbn [client]; rewrite (p_dbl _ _ _ ENV); reflexivity.
+  Qed.
 End Roundtrip.
+
+(* ------------------------------------------------------------------------------------------------ *)
+(** * Cells without a CAST: lit() in select(), and columns whose first value is None *)
+
+Fixpoint plainv (v : pyval) : bool :=
+  match v with
+  | PInt z => int64 z
+  | PStr s => nul_free s
+  | PList l => forallb plainv l
+  | PRow fs => negb (match fs with [] => true | _ => false end) && nodup_keys fs
+               && negb (has_field s_key fs && has_field s_value fs)
+               && forallb (fun kv => plainv (snd kv)) fs
+  | PFloat _ | PTuple _ | PDict _ | PDec _ => false
+  | _ => true
+  end.
+
+(** without a CAST a float survives only at the top level (there _create_row turns the Decimal back into a
+    float) and only if it is not an infinity (whose literal is the STRING 'inf') *)
+Definition untyped_ok (v : pyval) : bool :=
+  match v with
+  | PFloat (FInf _) => false
+  | PFloat _ => true
+  | _ => plainv v
+  end.
+
+Lemma plainv_supp : forall v, plainv v = true -> supp v = true.
+Proof.
+  apply (pyval_rect' (fun v => plainv v = true -> supp v = true)); try (intros; assumption); try (intros; reflexivity).
+  - intros f H; discriminate.
+  - intros l IH H. cbn [plainv] in H. cbn [supp]. rewrite Forall_forall in IH. rewrite forallb_forall in *.
+    intros x Hx. apply IH; [exact Hx|apply H; exact Hx].
+  - intros fs IH H. cbn [plainv] in H. cbn [supp].
+    apply andb_true_iff in H. destruct H as [H Hall]. rewrite H. cbn [andb].
+    rewrite Forall_forall in IH. rewrite forallb_forall in *.
+    intros x Hx. apply IH; [exact Hx|apply Hall; exact Hx].
+Qed.
+
+Section Untyped.
+  Variable eleaf : lit -> option dbval.
+  Variable cleaf : sty -> dbval -> option dbval.
+  Variable pleaf : dbval -> pyval.
+  Hypothesis ENV : env_ok eleaf cleaf pleaf.
+
+  Lemma client0_nested : forall v, plainv v = true -> std_to_value (client pleaf (D0 v)) = expected v.
+  Proof.
+    apply (pyval_rect' (fun v => plainv v = true -> std_to_value (client pleaf (D0 v)) = expected v)).
+    - intros _. cbn. rewrite (p_null _ _ _ ENV). reflexivity.
+    - intros b _. cbn. rewrite (p_bool _ _ _ ENV). reflexivity.
+    - intros z _. cbn. rewrite (p_int _ _ _ ENV). reflexivity.
+    - intros f H. discriminate.
+    - intros f H. discriminate.
+    - intros s _. cbn. rewrite (p_str _ _ _ ENV). reflexivity.
+    - intros b _. cbn. rewrite (p_blob _ _ _ ENV). reflexivity.
+    - intros d _. cbn. rewrite (p_date _ _ _ ENV). reflexivity.
+    - intros us tz _. destruct tz; cbn [D0 client]; [rewrite (p_tstz _ _ _ ENV)|rewrite (p_ts _ _ _ ENV)]; reflexivity.
+    - intros l IH H. cbn [plainv] in H. cbn [D0 client expected]. rewrite map_map.
+      destruct l as [|x r]; [reflexivity|].
+      cbn [map std_to_value]. f_equal.
+      rewrite Forall_forall in IH. rewrite forallb_forall in H.
+      change (std_to_value (client pleaf (D0 x)) :: map std_to_value (map (fun x0 => client pleaf (D0 x0)) r))
+        with (map std_to_value (map (fun x0 => client pleaf (D0 x0)) (x :: r))).
+      rewrite map_map. change (expected x :: map expected r) with (map expected (x :: r)).
+      apply map_ext_in. intros a Ha. apply IH; [exact Ha|apply H; exact Ha].
+    - intros l _ H. discriminate.
+    - intros fs IH H. cbn [plainv] in H.
+      apply andb_true_iff in H. destruct H as [H Hall]. apply andb_true_iff in H. destruct H as [_ Hkv].
+      apply negb_true_iff in Hkv.
+      cbn [D0 client expected]. cbn [std_to_value].
+      rewrite (maplike_struct_false) by (rewrite !has_field_map_snd; exact Hkv).
+      f_equal. rewrite Forall_forall in IH. rewrite forallb_forall in Hall.
+      clear Hkv. induction fs as [|[k x] r IHr]; [reflexivity|].
+      cbn [map_snd map fst snd key_name]. fold (@map_snd ustr _ _ D0). fold (@map_snd ustr _ _ expected).
+      pose proof (IH (k, x) (or_introl eq_refl) (Hall (k, x) (or_introl eq_refl))) as Hx. cbn [snd] in Hx.
+      rewrite Hx. rewrite (expected_not_dec x (plainv_supp _ (Hall (k, x) (or_introl eq_refl)))).
+      f_equal. apply IHr; intros.
+      + apply IH; [right; assumption|assumption].
+      + apply Hall; right; assumption.
+    - intros kv _ H. discriminate.
+  Qed.
+
+  Variable lch : chain lact.
+  Variable fch : chain fact.
+  Variable vch : chain vact.
+  Hypothesis LOK : lit_chain_ok lch = true.
+  Hypothesis FOK : litfn_chain_ok fch = true.
+  Hypothesis VOK : tovalue_chain_ok vch = true.
+
+  Theorem untyped_roundtrip : forall v,
+    untyped_ok v = true -> pipeline eleaf cleaf pleaf lch fch vch None v = Some (expected v).
+  Proof.
+    intros v Hs. unfold pipeline, run.
+    rewrite (lit_top_is_std lch fch LOK FOK).
+    destruct v; try (
+      cbn [untyped_ok] in Hs; unfold std_lit_top;
+      rewrite (eval_nested _ _ _ ENV _ (plainv_supp _ Hs)), (to_value_is_std vch VOK), (client0_nested _ Hs),
+              (expected_not_dec _ (plainv_supp _ Hs)); reflexivity).
+    destruct f as [|n|b e].
+    - cbn [std_lit_top std_lit_nested eval]. rewrite (e_nan _ _ _ ENV).
+      rewrite (to_value_is_std vch VOK). cbn [client]. rewrite (p_flt _ _ _ ENV). reflexivity.
+    - discriminate.
+    - cbn [std_lit_top std_lit_nested convert_leaf eval]. rewrite (e_num _ _ _ ENV).
+      rewrite (to_value_is_std vch VOK).
+      destruct e; cbn [client]; [rewrite (p_dbl _ _ _ ENV)|rewrite (p_dec _ _ _ ENV)]; reflexivity.
+  Qed.
+End Untyped.
+
+(* ------------------------------------------------------------------------------------------------ *)
+(** * A reference environment: shows that [env_ok] is satisfiable and lets the check evaluate the model *)
+
+Definition int32 (z : Z) : bool := (-2147483648 <=? z) && (z <=? 2147483647).
+
+Definition ref_eleaf (l : lit) : option dbval :=
+  match l with
+  | LNull => Some DNull
+  | LBool b => Some (DBool b)
+  | LInt z => Some (DInt z)
+  | LNum (FFin b e) => Some (if e then DDbl (FFin b e) else DDec (FFin b e))
+  | LNum _ => None                                  (* the bare words inf / nan are column references *)
+  | LStr s => if nul_free s then Some (DStr s) else None
+  | LCastStr s TFloat => if ueqb s s_NaN then Some (DFlt FNaN) else None
+  | LHex b => Some (DBlob b)
+  | LDate d => Some (DDate d)
+  | LTs us => Some (DTs us)
+  | LTsTz us => Some (DTsTz us)
+  | _ => None
+  end.
+
+Definition ref_cleaf (t : sty) (d : dbval) : option dbval :=
+  match t, d with
+  | TBool, DBool _ => Some d
+  | TBigint, DInt z => if int64 z then Some d else None
+  | TInt, DInt z => if int32 z then Some d else None
+  | TDouble, DDec f | TDouble, DDbl f | TDouble, DFlt f => Some (DDbl f)
+  | TDouble, DStr s => if ueqb s (s_inf false) then Some (DDbl (FInf false))
+                       else if ueqb s (s_inf true) then Some (DDbl (FInf true)) else None
+  | TString, DStr _ => Some d
+  | TBinary, DBlob _ => Some d
+  | TDate, DDate _ => Some d
+  | TTimestamp, DTs us | TTimestamp, DTsTz us | TTimestampTz, DTs us | TTimestampTz, DTsTz us => Some (DTsTz us)
+  | _, _ => None
+  end.
+
+Definition ref_pleaf (d : dbval) : pyval :=
+  match d with
+  | DNull => PNone | DBool b => PBool b | DInt z => PInt z | DDec f => PDec f
+  | DDbl f | DFlt f => PFloat f
+  | DStr s => PStr s | DBlob b => PBytes b | DDate d => PDate d
+  | DTs us => PTs us None | DTsTz us => PTs us (Some 0)
+  | DList _ | DStruct _ => PNone
+  end.
+
+Lemma ref_env_ok : env_ok ref_eleaf ref_cleaf ref_pleaf.
+Proof.
+  constructor; try reflexivity.
+  - intros s H. cbn. rewrite H. reflexivity.
+  - intros z H. cbn. rewrite H. reflexivity.
+  - intros [|]; reflexivity.
+Qed.
+
+(* ------------------------------------------------------------------------------------------------ *)
+(** * Whole columns: DuckDB gives all members of a VALUES column (and all elements of a list, across rows) ONE
+      type.  The NaN literal is CAST('NaN' AS REAL): where it meets numerals without exponent (DECIMAL) and no
+      numeral with exponent (DOUBLE), the common type is REAL and the numerals are rounded to float32. *)
+
+Inductive nshape :=
+| NSnone
+| NSleaf (has_real has_dbl : bool)
+| NSlist (s : nshape)
+| NSstruct (fs : list (ustr * nshape)).
+
+Fixpoint merge (a b : nshape) {struct a} : nshape :=
+  match a, b with
+  | NSnone, x => x
+  | x, NSnone => x
+  | NSleaf r d, NSleaf r' d' => NSleaf (r || r') (d || d')
+  | NSlist x, NSlist y => NSlist (merge x y)
+  | NSstruct xs, NSstruct ys =>
+      NSstruct ((fix go (xs : list (ustr * nshape)) : list (ustr * nshape) :=
+                   match xs with
+                   | [] => []
+                   | (k, x) :: r => (k, match lookup k ys with Some y => merge x y | None => x end) :: go r
+                   end) xs)
+  | x, _ => x
+  end.
+
+Fixpoint shape_of (d : dbval) : nshape :=
+  match d with
+  | DDec _ => NSleaf false false
+  | DFlt _ => NSleaf true false
+  | DDbl _ => NSleaf false true
+  | DList l => NSlist (fold_right (fun x acc => merge (shape_of x) acc) NSnone l)
+  | DStruct fs => NSstruct (map_snd shape_of fs)
+  | _ => NSnone
+  end.
+
+Section Column.
+  Variable eleaf : lit -> option dbval.
+  Variable cleaf : sty -> dbval -> option dbval.
+  Variable pleaf : dbval -> pyval.
+  Variable round32 : fval -> fval.      (* environment: the double that equals the float32 nearest to f *)
+  Variable lch : chain lact.
+  Variable fch : chain fact.
+  Variable vch : chain vact.
+
+  Fixpoint unify (s : nshape) (d : dbval) {struct d} : dbval :=
+    match d with
+    | DDec f => match s with
+                | NSleaf _ true => DDbl f
+                | NSleaf true false => DFlt (round32 f)
+                | _ => d
+                end
+    | DFlt f => match s with NSleaf _ true => DDbl f | _ => d end
+    | DList l => match s with NSlist s' => DList (map (unify s') l) | _ => d end
+    | DStruct fs =>
+        match s with
+        | NSstruct ss => DStruct (map (fun kv => (fst kv, match lookup (fst kv) ss with
+                                                          | Some s' => unify s' (snd kv)
+                                                          | None => snd kv
+                                                          end)) fs)
+        | _ => d
+        end
+    | _ => d
+    end.
+
+  Definition col_shape (ds : list dbval) : nshape := fold_right (fun x acc => merge (shape_of x) acc) NSnone ds.
+
+  Definition finish (ty : option sty) (d : dbval) : option pyval :=
+    match (match ty with Some t => cast cleaf t d | None => Some d end) with
+    | None => None
+    | Some d' => Some (fix_dec (to_value vch (client pleaf d')))
+    end.
+
+  (** all cells of one column of one createDataFrame; one failing cell fails the statement *)
+  Definition col_pipeline (ty : option sty) (vs : list pyval) : list (option pyval) :=
+    match mapo (eval eleaf) (map (lit_top lch fch) vs) with
+    | None => map (fun _ => None) vs
+    | Some ds =>
+        let sh := col_shape ds in
+        match mapo (fun d => finish ty (unify sh d)) ds with
+        | Some rs => map Some rs
+        | None => map (fun _ => None) vs
+        end
+    end.
+End Column.
+
+(** no REAL anywhere *)
+Fixpoint real_free (s : nshape) : bool :=
+  match s with
+  | NSleaf r _ => negb r
+  | NSlist s' => real_free s'
+  | NSstruct fs => forallb (fun kv => real_free (snd kv)) fs
+  | NSnone => true
+  end.
+(** ... and no DOUBLE either: nothing to unify *)
+Fixpoint dec_only (s : nshape) : bool :=
+  match s with
+  | NSleaf r d => negb r && negb d
+  | NSlist s' => dec_only s'
+  | NSstruct fs => forallb (fun kv => dec_only (snd kv)) fs
+  | NSnone => true
+  end.
+
+Section NshapeInd.
+  Variable P : nshape -> Prop.
+  Hypothesis Hnone : P NSnone.
+  Hypothesis Hleaf : forall r d, P (NSleaf r d).
+  Hypothesis Hlist : forall s, P s -> P (NSlist s).
+  Hypothesis Hstruct : forall fs, Forall (fun kv => P (snd kv)) fs -> P (NSstruct fs).
+  Fixpoint nshape_rect' (s : nshape) : P s :=
+    match s with
+    | NSnone => Hnone
+    | NSleaf r d => Hleaf r d
+    | NSlist s' => Hlist s' (nshape_rect' s')
+    | NSstruct fs => Hstruct fs ((fix go (l : list (ustr * nshape)) : Forall (fun kv => P (snd kv)) l :=
+                        match l with [] => Forall_nil _ | x :: r => Forall_cons _ (nshape_rect' (snd x)) (go r) end) fs)
+    end.
+End NshapeInd.
+
+Lemma lookup_forallb {A} (p : A -> bool) k (fs : list (ustr * A)) x :
+  forallb (fun kv => p (snd kv)) fs = true -> lookup k fs = Some x -> p x = true.
+Proof.
+  induction fs as [|[k' y] r IH]; [discriminate|]. cbn [forallb lookup snd]. intros H L.
+  apply andb_true_iff in H. destruct H as [H1 H2]. destruct (ueqb k k'); [inversion L; subst; exact H1|exact (IH H2 L)].
+Qed.
+
+Lemma merge_real_free : forall a b, real_free a = true -> real_free b = true -> real_free (merge a b) = true.
+Proof.
+  apply (nshape_rect' (fun a => forall b, real_free a = true -> real_free b = true -> real_free (merge a b) = true)).
+  - intros b _ Hb. exact Hb.
+  - intros r d b Ha Hb. destruct b; cbn [merge]; try exact Ha.
+    cbn [real_free] in *. apply negb_true_iff in Ha, Hb. rewrite Ha, Hb. reflexivity.
+  - intros s IH b Ha Hb. destruct b; cbn [merge]; try exact Ha. cbn [real_free] in *. apply IH; assumption.
+  - intros fs IH b Ha Hb. destruct b as [| | |ys]; cbn [merge]; try exact Ha.
+    cbn [real_free] in *. induction IH as [|[k x] r Hx _ IHr]; [reflexivity|].
+    cbn [forallb snd] in Ha. apply andb_true_iff in Ha. destruct Ha as [Ha1 Ha2]. cbn [snd] in Hx.
+    cbn [forallb snd]. rewrite (IHr Ha2). rewrite andb_true_r.
+    destruct (lookup k ys) as [y|] eqn:L; [|exact Ha1].
+    apply Hx; [exact Ha1|]. exact (lookup_forallb real_free k ys y Hb L).
+Qed.
+
+Fixpoint nanfree (v : pyval) : bool :=
+  match v with
+  | PFloat FNaN => false
+  | PList l => forallb nanfree l
+  | PRow fs => forallb (fun kv => nanfree (snd kv)) fs
+  | _ => true
+  end.
+
+Lemma shape_D0_real_free : forall v, nanfree v = true -> real_free (shape_of (D0 v)) = true.
+Proof.
+  apply (pyval_rect' (fun v => nanfree v = true -> real_free (shape_of (D0 v)) = true)); try (intros; reflexivity).
+  - intros f H. destruct f as [|n|b e]; [discriminate|reflexivity|destruct e; reflexivity].
+  - intros us tz _. destruct tz; reflexivity.
+  - intros l IH H. cbn [nanfree] in H. cbn [D0 shape_of real_free].
+    induction IH as [|x r Hx _ IHr]; [reflexivity|].
+    cbn [forallb] in H. apply andb_true_iff in H. destruct H as [H1 H2].
+    cbn [map fold_right]. apply merge_real_free; [exact (Hx H1)|exact (IHr H2)].
+  - intros fs IH H. cbn [nanfree] in H. cbn [D0 shape_of real_free].
+    induction IH as [|[k x] r Hx _ IHr]; [reflexivity|].
+    cbn [forallb snd] in H. apply andb_true_iff in H. destruct H as [H1 H2]. cbn [snd] in Hx.
+    cbn [map_snd forallb snd]. fold (@map_snd ustr _ _ D0). fold (@map_snd ustr _ _ shape_of).
+    rewrite (Hx H1). exact (IHr H2).
+Qed.
+
+Lemma col_shape_real_free : forall vs, forallb nanfree vs = true -> real_free (col_shape (map D0 vs)) = true.
+Proof.
+  induction vs as [|v r IH]; [reflexivity|]. cbn [forallb]. intro H. apply andb_true_iff in H. destruct H as [H1 H2].
+  unfold col_shape. cbn [map fold_right]. apply merge_real_free; [exact (shape_D0_real_free v H1)|exact (IH H2)].
+Qed.
+
+Lemma mapo_ext_in {A B} (f g : A -> option B) l : (forall x, In x l -> f x = g x) -> mapo f l = mapo g l.
+Proof.
+  induction l as [|x r IH]; intro H; [reflexivity|]. cbn [mapo]. fold (mapo f). fold (mapo g).
+  rewrite (H x (or_introl eq_refl)), IH; [reflexivity|]. intros y Hy. apply H. right. exact Hy.
+Qed.
+
+Lemma mapo_map {A B C} (f : B -> option C) (g : A -> B) l : mapo f (map g l) = mapo (fun x => f (g x)) l.
+Proof. induction l as [|x r IH]; [reflexivity|]. cbn [map mapo]. fold (mapo f). fold (mapo (fun x => f (g x))). rewrite IH. reflexivity. Qed.
+
+Section ColumnRoundtrip.
+  Variable eleaf : lit -> option dbval.
+  Variable cleaf : sty -> dbval -> option dbval.
+  Variable pleaf : dbval -> pyval.
+  Variable round32 : fval -> fval.
+  Hypothesis ENV : env_ok eleaf cleaf pleaf.
+
+  Definition U (ss : list (ustr * nshape)) (k : ustr) (d : dbval) : dbval :=
+    match lookup k ss with Some s' => unify round32 s' d | None => d end.
+
+  Lemma lookup_unified ss k (fs : list (ustr * pyval)) :
+    lookup k (map (fun kv : ustr * dbval => (fst kv, match lookup (fst kv) ss with
+                                              | Some s' => unify round32 s' (snd kv)
+                                              | None => snd kv end)) (map_snd D0 fs))
+    = option_map (fun x => U ss k (D0 x)) (lookup k fs).
+  Proof.
+    induction fs as [|[k' x] r IH]; [reflexivity|].
+    cbn [map_snd map lookup fst snd]. fold (@map_snd ustr _ _ D0).
+    destruct (ueqb k k') eqn:E; [|exact IH]. apply ueqb_eq in E. subst k'. reflexivity.
+  Qed.
+
+  (** for a value without NaN in a column whose common shape has no REAL, unification changes nothing that the
+      CAST to the column type does not undo *)
+  Lemma cast_unify : forall v s t, real_free s = true -> nanfree v = true -> supp v = true -> fits v t = true ->
+    cast cleaf t (unify round32 s (D0 v)) = Some (D1 v).
+  Proof.
+    apply (pyval_rect' (fun v => forall s t, real_free s = true -> nanfree v = true -> supp v = true -> fits v t = true ->
+                                  cast cleaf t (unify round32 s (D0 v)) = Some (D1 v))).
+    - intros s t _ _ _ _. destruct t; reflexivity.
+    - intros b s t _ _ Hs H. exact (cast_nested _ _ _ ENV (PBool b) t Hs H).
+    - intros z s t _ _ Hs H. exact (cast_nested _ _ _ ENV (PInt z) t Hs H).
+    - intros f s t Hr Hn Hs H. destruct t; try discriminate. destruct f as [|n|b e]; try discriminate.
+      cbn [D0]. destruct e.
+      + cbn [unify cast]. apply (c_dbl _ _ _ ENV).
+      + cbn [unify]. destruct s as [|r d| |]; try (cbn [cast]; apply (c_dec _ _ _ ENV)).
+        destruct r, d; try discriminate; cbn [cast]; first [apply (c_dbl _ _ _ ENV) | apply (c_dec _ _ _ ENV)].
+    - intros f s t _ _ Hs _. discriminate.
+    - intros x s t _ _ Hs H. exact (cast_nested _ _ _ ENV (PStr x) t Hs H).
+    - intros x s t _ _ Hs H. exact (cast_nested _ _ _ ENV (PBytes x) t Hs H).
+    - intros x s t _ _ Hs H. exact (cast_nested _ _ _ ENV (PDate x) t Hs H).
+    - intros us tz s t _ _ Hs H. destruct tz; exact (cast_nested _ _ _ ENV _ t Hs H).
+    - (* list *)
+      intros l IH s t Hr Hn Hs H.
+      destruct s as [| |s'|]; try exact (cast_nested _ _ _ ENV (PList l) t Hs H).
+      destruct t; try discriminate. cbn [fits] in H. cbn [supp] in Hs. cbn [nanfree] in Hn. cbn [real_free] in Hr.
+      cbn [D0 D1 unify cast]. rewrite map_map.
+      assert (E : mapo (cast cleaf t) (map (fun x => unify round32 s' (D0 x)) l) = Some (map D1 l)).
+      { rewrite Forall_forall in IH. rewrite forallb_forall in H, Hs, Hn.
+        assert (F : Forall (fun x => true = true -> cast cleaf t ((fun y => unify round32 s' (D0 y)) x) = Some (D1 x)) l).
+        { apply Forall_forall. intros x Hx _. apply IH; [exact Hx|exact Hr|apply Hn; exact Hx|apply Hs; exact Hx|apply H; exact Hx]. }
+        apply (mapo_map_Forall (fun _ => true) (cast cleaf t) (fun y => unify round32 s' (D0 y)) D1 l F).
+        apply forallb_forall. reflexivity. }
+      rewrite E. reflexivity.
+    - intros l _ s t _ _ Hs _. discriminate.
+    - (* struct *)
+      intros fs IH s t Hr Hn Hs H.
+      destruct s as [| | |ss]; try exact (cast_nested _ _ _ ENV (PRow fs) t Hs H).
+      destruct t as [| | | | | | | | | | | | |ts|]; try discriminate.
+      pose proof Hs as Hs0. cbn [supp] in Hs.
+      apply andb_true_iff in Hs. destruct Hs as [Hs Hall]. apply andb_true_iff in Hs. destruct Hs as [Hs _].
+      apply andb_true_iff in Hs. destruct Hs as [Hne Hnd].
+      cbn [nanfree] in Hn. cbn [real_free] in Hr.
+      cbn [D0 D1 unify].
+      set (fs' := map (fun kv : ustr * dbval => (fst kv, match lookup (fst kv) ss with
+                                              | Some s' => unify round32 s' (snd kv)
+                                              | None => snd kv end)) (map_snd D0 fs)).
+      assert (Hc : cast cleaf (TStruct ts) (DStruct fs') =
+              option_map DStruct ((fix go (ts : list (ustr * sty)) : option (list (ustr * dbval)) :=
+                 match ts with
+                 | [] => Some []
+                 | (k, t') :: r =>
+                     match lookup k fs' with
+                     | Some x => match cast cleaf t' x, go r with Some y, Some ys => Some ((k, y) :: ys) | _, _ => None end
+                     | None => None
+                     end
+                 end) ts)) by reflexivity.
+      rewrite Hc. clear Hc.
+      match goal with |- option_map DStruct ?a = Some (DStruct ?b) => assert (E : a = Some b); [|rewrite E; reflexivity] end.
+      cbn [fits] in H.
+      assert (G : forall (gs : list (ustr * pyval)) (ts : list (ustr * sty)),
+                 (forall k x, In (k, x) gs -> lookup k fs = Some x /\
+                                            (forall t, fits x t = true -> cast cleaf t (U ss k (D0 x)) = Some (D1 x))) ->
+                 (fix go (fs0 : list (ustr * pyval)) (ts0 : list (ustr * sty)) : bool :=
+                    match fs0, ts0 with
+                    | [], [] => true
+                    | (k, x) :: fr, (k', t') :: tr => ueqb k k' && fits x t' && go fr tr
+                    | _, _ => false
+                    end) gs ts = true ->
+                 (fix go (ts0 : list (ustr * sty)) : option (list (ustr * dbval)) :=
+                    match ts0 with
+                    | [] => Some []
+                    | (k, t') :: r =>
+                        match lookup k fs' with
+                        | Some x => match cast cleaf t' x, go r with Some y, Some ys => Some ((k, y) :: ys) | _, _ => None end
+                        | None => None
+                        end
+                    end) ts = Some (map_snd D1 gs)).
+      { induction gs as [|[k x] gr IHg]; intros ts0 Hin Hf.
+        - destruct ts0; [reflexivity|discriminate].
+        - destruct ts0 as [|[k' t'] tr]; [discriminate|].
+          apply andb_true_iff in Hf. destruct Hf as [Hf Hrest]. apply andb_true_iff in Hf. destruct Hf as [Hk Hfx].
+          apply ueqb_eq in Hk. subst k'.
+          destruct (Hin k x (or_introl eq_refl)) as [Hl Hcx].
+          unfold fs'. rewrite lookup_unified, Hl. cbn [option_map]. rewrite (Hcx t' Hfx).
+          fold fs'. rewrite (IHg tr); [reflexivity| |exact Hrest].
+          intros k2 x2 H2. apply Hin. right. exact H2. }
+      apply G; [|exact H].
+      intros k x Hin. rewrite Forall_forall in IH. rewrite forallb_forall in Hall, Hn.
+      split.
+      + clear -Hnd Hin. induction fs as [|[k1 x1] r IHr]; [destruct Hin|].
+        cbn [nodup_keys] in Hnd. apply andb_true_iff in Hnd. destruct Hnd as [Hn1 Hn2]. apply negb_true_iff in Hn1.
+        destruct Hin as [Hin|Hin].
+        * inversion Hin; subst. cbn [lookup]. rewrite ueqb_refl. reflexivity.
+        * cbn [lookup]. rewrite (existsb_ueqb_false _ _ _ _ Hn1 Hin). apply IHr; assumption.
+      + intros t Hft. unfold U. destruct (lookup k ss) as [s'|] eqn:L.
+        * apply (IH (k, x) Hin s' t); [exact (lookup_forallb real_free k ss s' Hr L)|apply (Hn (k, x) Hin)|apply (Hall (k, x) Hin)|exact Hft].
+        * exact (cast_nested _ _ _ ENV x t (Hall (k, x) Hin) Hft).
+    - intros kv _ s t _ _ Hs _. discriminate.
+  Qed.
+
+  Variable lch : chain lact.
+  Variable fch : chain fact.
+  Variable vch : chain vact.
+  Hypothesis LOK : lit_chain_ok lch = true.
+  Hypothesis FOK : litfn_chain_ok fch = true.
+  Hypothesis VOK : tovalue_chain_ok vch = true.
+
+  (** members of a typed column: supported, of the column's type, and -- because of the REAL NaN literal --
+      free of NaN; an infinity only as the whole cell *)
+  Definition col_member (t : sty) (v : pyval) : bool :=
+    supported v && fits v t && nanfree v.
+
+  Lemma eval_top : forall v, supported v = true -> nanfree v = true ->
+    eval eleaf (std_lit_top v) = Some (D0 v).
+  Proof.
+    intros v Hs Hn. destruct v; try exact (eval_nested _ _ _ ENV _ Hs).
+    destruct f as [|n|b e]; [discriminate| |exact (e_num _ _ _ ENV b e)].
+    cbn [std_lit_top eval D0]. apply (e_str _ _ _ ENV). destruct n; reflexivity.
+  Qed.
+
+  Lemma finish_member : forall s t v, real_free s = true -> col_member t v = true ->
+    finish cleaf pleaf vch (Some t) (unify round32 s (D0 v)) = Some (expected v).
+  Proof.
+    intros s t v Hr Hm. unfold col_member in Hm.
+    apply andb_true_iff in Hm. destruct Hm as [Hm Hn]. apply andb_true_iff in Hm. destruct Hm as [Hs Hf].
+    unfold finish.
+    destruct v; try (cbn [supported] in Hs;
+      rewrite (cast_unify _ s t Hr Hn Hs Hf), (to_value_is_std vch VOK), (client_nested _ _ _ ENV _ Hs),
+              (expected_not_dec _ Hs); reflexivity).
+    destruct t; try discriminate. destruct f as [|n|b e]; [discriminate| |].
+    - cbn [D0 unify cast]. rewrite (c_inf _ _ _ ENV). rewrite (to_value_is_std vch VOK). cbn [client].
+      rewrite (p_dbl _ _ _ ENV). reflexivity.
+    - assert (E : cast cleaf TDouble (unify round32 s (D0 (PFloat (FFin b e)))) = Some (DDbl (FFin b e))).
+      { cbn [D0]. destruct e.
+        - cbn [unify cast]. apply (c_dbl _ _ _ ENV).
+        - cbn [unify]. destruct s as [|r d| |]; try (cbn [cast]; apply (c_dec _ _ _ ENV)).
+          destruct r, d; try discriminate; cbn [cast]; first [apply (c_dbl _ _ _ ENV) | apply (c_dec _ _ _ ENV)]. }
+      rewrite E. rewrite (to_value_is_std vch VOK). cbn [client]. rewrite (p_dbl _ _ _ ENV). reflexivity.
+  Qed.
+
+  (** column_roundtrip: every cell of a typed column comes back as promised *)
+  Theorem column_roundtrip : forall t vs,
+    forallb (col_member t) vs = true ->
+    col_pipeline eleaf cleaf pleaf round32 lch fch vch (Some t) vs = map (fun v => Some (expected v)) vs.
+  Proof.
+    intros t vs H. unfold col_pipeline.
+    assert (Hsn : forall v, In v vs -> supported v = true /\ nanfree v = true /\ col_member t v = true).
+    { rewrite forallb_forall in H. intros v Hv. pose proof (H v Hv) as Hm. unfold col_member in Hm.
+      apply andb_true_iff in Hm. destruct Hm as [Hm Hn]. apply andb_true_iff in Hm. destruct Hm as [Hs _].
+      repeat split; try assumption. exact (H v Hv). }
+    assert (E1 : mapo (eval eleaf) (map (lit_top lch fch) vs) = Some (map D0 vs)).
+    { rewrite mapo_map. clear H. induction vs as [|v r IH]; [reflexivity|].
+      cbn [mapo map]. fold (mapo (fun x => eval eleaf (lit_top lch fch x))).
+      destruct (Hsn v (or_introl eq_refl)) as [Hs [Hn _]].
+      rewrite (lit_top_is_std lch fch LOK FOK), (eval_top v Hs Hn), IH; [reflexivity|].
+      intros y Hy. apply Hsn. right. exact Hy. }
+    rewrite E1.
+    assert (Hr : real_free (col_shape (map D0 vs)) = true).
+    { apply col_shape_real_free. apply forallb_forall. intros v Hv. apply (Hsn v Hv). }
+    generalize dependent (col_shape (map D0 vs)). intros sh Hr.
+    assert (E2 : forall l, (forall v, In v l -> col_member t v = true) ->
+                 mapo (fun d => finish cleaf pleaf vch (Some t) (unify round32 sh d)) (map D0 l) = Some (map expected l)).
+    { intros l Hl. rewrite mapo_map. induction l as [|v r IH]; [reflexivity|].
+      cbn [mapo map]. fold (mapo (fun x => finish cleaf pleaf vch (Some t) (unify round32 sh (D0 x)))).
+      rewrite (finish_member sh t v Hr (Hl v (or_introl eq_refl))), IH; [reflexivity|].
+      intros y Hy. apply Hl. right. exact Hy. }
+    rewrite (E2 vs); [|intros v Hv; apply (Hsn v Hv)].
+    rewrite map_map. reflexivity.
+  Qed.
+End ColumnRoundtrip.
+
+Section ColumnUntyped.
+  Variable eleaf : lit -> option dbval.
+  Variable cleaf : sty -> dbval -> option dbval.
+  Variable pleaf : dbval -> pyval.
+  Variable round32 : fval -> fval.
+  Hypothesis ENV : env_ok eleaf cleaf pleaf.
+  Variable lch : chain lact.
+  Variable fch : chain fact.
+  Variable vch : chain vact.
+  Hypothesis LOK : lit_chain_ok lch = true.
+  Hypothesis FOK : litfn_chain_ok fch = true.
+  Hypothesis VOK : tovalue_chain_ok vch = true.
+
+  Lemma unify_plain : forall v s, plainv v = true -> unify round32 s (D0 v) = D0 v.
+  Proof.
+    apply (pyval_rect' (fun v => forall s, plainv v = true -> unify round32 s (D0 v) = D0 v)); try (intros; reflexivity).
+    - intros f s H. discriminate.
+    - intros f s H. discriminate.
+    - intros us tz s _. destruct tz; reflexivity.
+    - intros l IH s H. cbn [plainv] in H. cbn [D0 unify]. destruct s as [| |s'|]; try reflexivity.
+      f_equal. rewrite map_map. apply map_ext_in. intros x Hx.
+      rewrite Forall_forall in IH. rewrite forallb_forall in H. apply IH; [exact Hx|apply H; exact Hx].
+    - intros fs IH s H. cbn [plainv] in H. apply andb_true_iff in H. destruct H as [_ Hall].
+      cbn [D0 unify]. destruct s as [| | |ss]; try reflexivity. f_equal.
+      rewrite Forall_forall in IH. rewrite forallb_forall in Hall.
+      induction fs as [|[k x] r IHr]; [reflexivity|].
+      cbn [map_snd map fst snd]. fold (@map_snd ustr _ _ D0).
+      rewrite IHr; [|intros y Hy s0 Hp0; apply (IH y (or_intror Hy) s0 Hp0)|intros y Hy; apply (Hall y (or_intror Hy))].
+      f_equal. f_equal. destruct (lookup k ss); [|reflexivity].
+      apply (IH (k, x) (or_introl eq_refl)). apply (Hall (k, x) (or_introl eq_refl)).
+  Qed.
+
+  (** a column without a CAST (first value None) whose members contain no float at all *)
+  Theorem column_untyped : forall vs,
+    forallb plainv vs = true ->
+    col_pipeline eleaf cleaf pleaf round32 lch fch vch None vs = map (fun v => Some (expected v)) vs.
+  Proof.
+    intros vs H. unfold col_pipeline. rewrite forallb_forall in H.
+    assert (E1 : mapo (eval eleaf) (map (lit_top lch fch) vs) = Some (map D0 vs)).
+    { rewrite mapo_map. induction vs as [|v r IH]; [reflexivity|].
+      cbn [mapo map]. fold (mapo (fun x => eval eleaf (lit_top lch fch x))).
+      pose proof (H v (or_introl eq_refl)) as Hp.
+      rewrite (lit_top_is_std lch fch LOK FOK).
+      assert (Et : std_lit_top v = std_lit_nested v) by (destruct v; try reflexivity; discriminate).
+      rewrite Et, (eval_nested _ _ _ ENV v (plainv_supp v Hp)), IH; [reflexivity|].
+      intros y Hy. apply H. right. exact Hy. }
+    rewrite E1. generalize (col_shape (map D0 vs)). intro sh.
+    assert (E2 : forall l, (forall v, In v l -> plainv v = true) ->
+                 mapo (fun d => finish cleaf pleaf vch None (unify round32 sh d)) (map D0 l) = Some (map expected l)).
+    { intros l Hl. rewrite mapo_map. induction l as [|v r IH]; [reflexivity|].
+      cbn [mapo map]. fold (mapo (fun x => finish cleaf pleaf vch None (unify round32 sh (D0 x)))).
+      pose proof (Hl v (or_introl eq_refl)) as Hp.
+      unfold finish at 1. rewrite (unify_plain v sh Hp), (to_value_is_std vch VOK), (client0_nested _ _ _ ENV v Hp),
+        (expected_not_dec v (plainv_supp v Hp)).
+      rewrite IH; [reflexivity|]. intros y Hy. apply Hl. right. exact Hy. }
+    rewrite (E2 vs H). rewrite map_map. reflexivity.
+  Qed.
+
+  (** select(lit(v)): a column of one value *)
+  Theorem lit_select_roundtrip : forall v,
+    untyped_ok v = true ->
+    col_pipeline eleaf cleaf pleaf round32 lch fch vch None [v] = [Some (expected v)].
+  Proof.
+    intros v H.
+    destruct v; try (apply (column_untyped [_]); cbn [forallb]; cbn [untyped_ok] in H; rewrite H; reflexivity).
+    unfold col_pipeline. cbn [map mapo]. rewrite (lit_top_is_std lch fch LOK FOK).
+    destruct f as [|n|b e]; [| discriminate |].
+    - cbn [std_lit_top std_lit_nested eval]. rewrite (e_nan _ _ _ ENV).
+      cbn [col_shape fold_right shape_of merge unify mapo]. unfold finish.
+      rewrite (to_value_is_std vch VOK). cbn [client]. rewrite (p_flt _ _ _ ENV). reflexivity.
+    - cbn [std_lit_top std_lit_nested convert_leaf eval]. rewrite (e_num _ _ _ ENV).
+      destruct e; cbn [col_shape fold_right shape_of merge unify mapo]; unfold finish;
+        rewrite (to_value_is_std vch VOK); cbn [client];
+        [rewrite (p_dbl _ _ _ ENV)|rewrite (p_dec _ _ _ ENV)]; reflexivity.
+  Qed.
+End ColumnUntyped.
+
+(** reference float32 rounding: a table supplied with the case (CPython/IEEE fact: bits -> bits of the double
+    equal to the nearest float32, and whether its repr uses an exponent) *)
+Definition ref_round32 (tbl : list (Z * (Z * bool))) (f : fval) : fval :=
+  match f with
+  | FFin b _ => match find (fun e => Z.eqb (fst e) b) tbl with
+                | Some (_, (b', e')) => FFin b' e'
+                | None => f
+                end
+  | _ => f
+  end.
